@@ -169,6 +169,107 @@ def wide_assignments(case, users):
     return [tuple(a[v] for v in users) for a in out]
 
 
+# --------------------------------------------------------------------------
+# LONG inequalities with MEDIUM coefficients (12..24 terms, coefficients 5..40): the diagram is deep (a two-digit number
+# of pending terms) AND the residual bounds at its bottom have two digits; the random stream stops at 8+2 terms, the wide
+# one uses coefficients 1..2, the huge one 3..6 variables
+# --------------------------------------------------------------------------
+def gen_mid_ineq(rng, names, vs=None):
+    n = len(vs) if vs else rng.choice([12, 12, 13, 14, 15, 16, 17, 18, 20, 22, 24])
+    vs = vs or rng.sample(names, min(n, len(names)))
+    lo = rng.choice([5, 5, 6, 8, 10])
+    hi = rng.choice([12, 16, 20, 20, 30, 40])
+    cs = sorted((rng.randint(lo, max(lo, hi)) for _ in vs), reverse=True)
+    if rng.random() < 0.3:
+        cs[-1] = rng.choice([1, 2, 3, cs[-1]])          # now and then one light term at the very end
+    tail = cs[-4:]
+    tot = sum(cs)
+    mode = rng.random()
+    if mode < 0.4:
+        head = cs[:max(2, len(cs) - 11)]
+        nb = sum(rng.sample(head, rng.choice([1, 1, 2]))) + rng.randint(1, 9)    # a few units above one or two heavy ones
+    elif mode < 0.7:
+        nb = rng.randint(cs[-1], cs[0] + cs[1] + 10)                             # anywhere up to the two heaviest
+    elif mode < 0.78:
+        nb = rng.choice(tail) + rng.choice([-1, 0, 0, 1])                        # about one tail coefficient
+    elif mode < 0.86:
+        i, j = rng.sample(range(len(tail)), 2)
+        nb = tail[i] + tail[j] + rng.choice([-1, 0, 0, 1])                       # about a pair of them
+    elif mode < 0.93:
+        nb = rng.choice(cs) + rng.choice([-1, 0, 1, cs[-1]])                     # any one coefficient (+ the lightest)
+    else:
+        nb = tot - (rng.choice(tail) + rng.choice([0, rng.choice(tail)])) + rng.choice([-1, 0, 1])   # the other end
+    lt = [[v, rng.random() < 0.7, c] for v, c in zip(vs, cs)]
+    op = rng.choice(["GE", "GE", "GE", "GE", "LE", "LE", "GT", "LT"])
+    b = nb
+    # the normal form  sum c*lit >= nb  written the way a user may (see gen_huge_ineq)
+    for t in lt:
+        if rng.random() < 0.1:
+            b -= t[2]
+            t[1], t[2] = not t[1], -t[2]
+    if op in ("LE", "LT"):
+        b = sum(t[2] for t in lt) - b
+        lt = [[v, not sg, c] for v, sg, c in lt]
+    if op == "GT":
+        b -= 1
+    if op == "LT":
+        b += 1
+    if rng.random() < 0.5:
+        rng.shuffle(lt)
+    return {"k": "ineq", "lt": lt, "rt": [], "b": b, "op": op, "decomp": rng.random() < 0.3,
+            "via": rng.choice(["ctor", "operator"])}
+
+
+def gen_mid_case(rng):
+    nv = rng.choice([12, 12, 13, 14, 15, 16, 17, 18, 20, 22, 24])
+    names = [f"m{i}" for i in range(nv)]
+    posts = [gen_mid_ineq(rng, names, list(names))]
+    if rng.random() < 0.25:
+        posts.append(gen_mid_ineq(rng, names, rng.sample(names, rng.randint(12, nv))))
+    hist = []
+    if rng.random() < 0.3:
+        h = dict(posts[0])
+        h["decomp"] = not h["decomp"] if rng.random() < 0.5 else h["decomp"]
+        h["b"] += rng.choice([0, 1, -1])
+        hist.append(h)
+    order = list(names)
+    rng.shuffle(order)
+    return {"kind": "wide", "sub": "mid", "history": hist, "posts": [{"k": "newvar", "v": v} for v in order] + posts,
+            "evals": []}
+
+
+def mid_assignments(case, users):
+    """For every posted inequality: all assignments with at most two (three, for 12 terms) of its literals true and
+    with at most that many of them false (the other variables all false / all true), plus random ones of every density."""
+    import random
+    r = random.Random(len(users) * 7919 + len(case["posts"]))
+    out = []
+    for p in case["posts"]:
+        if p["k"] != "ineq":
+            continue
+        lits = [[v, s == (c > 0)] for v, s, c in p["lt"]]
+        for fill in (False, True):
+            base = {v: fill for v in users}
+            for polarity in (False, True):
+                start = dict(base, **{v: (s if polarity else not s) for v, s in lits})
+                out.append(start)
+                for k in ((1, 2, 3) if len(lits) <= 12 else (1, 2)):
+                    for sub in itertools.combinations(lits, k):
+                        out.append(dict(start, **{v: (not s if polarity else s) for v, s in sub}))
+            if len(lits) == len(users):
+                break
+    for _ in range(60):
+        pr = r.choice([0.1, 0.2, 0.3, 0.5, 0.7, 0.9])
+        out.append({v: r.random() < pr for v in users})
+    seen, res = set(), []
+    for a in out:
+        t = tuple(a[v] for v in users)
+        if t not in seen:
+            seen.add(t)
+            res.append(t)
+    return res
+
+
 def gen_case(rng):
     nv = rng.choice([2, 3, 3, 4, 4, 5, 5, 6, 6, 7, 8, 10])
     names = NAMES[:nv]
@@ -493,6 +594,8 @@ def run_impl(case):
     tt = sm.ttable
     if len(users) <= MAXENUM:
         assigns = list(itertools.product([False, True], repeat=len(users)))
+    elif case.get("sub") == "mid":
+        assigns = mid_assignments(case, users)
     elif case.get("kind") == "wide":
         assigns = wide_assignments(case, users)
     else:
@@ -1555,7 +1658,15 @@ def run(ctx, out, replay=None):
                 "both constructions (60% coefficient decomposition), after 0-2 earlier huge encodings and, half of the "
                 "time, a call by the EARLIER manager of a public method that posts nothing (prioritize with negated "
                 "literals, setflipped, isflipped, newaux, printclauses, tocnf, solve, value, evalexpr, newvar with "
-                "another prefix) on the same variable names")
+                "another prefix) on the same variable names. "
+                "LONG inequalities with MEDIUM coefficients (50 cases quick, 600 thorough): 12..24 terms, every variable "
+                "once, coefficients drawn from lo..hi with lo 5..10 and hi 12..40 (now and then one light last term), "
+                "the bound a few units above one or two of the heaviest coefficients, anywhere between the lightest "
+                "coefficient and the sum of the two heaviest, about one / a pair of the four lightest, or as close to "
+                "the total; four operators, negated and complemented spellings, both constructions (30% coefficient "
+                "decomposition), sometimes a second inequality over 12+ of the variables or the same inequality encoded "
+                "before by another manager; checked on all assignments with at most two (12 terms: three) literals of "
+                "the inequality true / false plus 60 random ones")
     cases = []
     if replay and "case" in replay:
         cases.append(fr.unjson(replay["case"]))
@@ -1580,6 +1691,9 @@ def run(ctx, out, replay=None):
     # HUGE coefficients (a generator of its own as well: the streams above are unchanged)
     hrng = random.Random(ctx.rng.randrange(1 << 30))
     cases += [gen_huge_case(hrng) for _ in range(200 if ctx.quick() else 2000)]
+    # LONG inequalities with MEDIUM coefficients (again a generator of its own)
+    mrng = random.Random(ctx.rng.randrange(1 << 30))
+    cases += [gen_mid_case(mrng) for _ in range(50 if ctx.quick() else 600)]
     stats = {"refused_posts": 0, "cases_building_nodes": 0, "cases_reusing_earlier_nodes": 0, "unsat_instances": 0,
              "max_initial_memory": 0, "max_new_nodes": 0, "nodes_codified": 0,
              "ineq_via_diagram": 0, "ineq_as_clause_or_tautology": 0}
